@@ -127,6 +127,28 @@ def spec_from_sig(p):
 # databases
 # ---------------------------------------------------------------------------
 
+def clear_stuck_transaction(alias='default'):
+    """-> True when the connection was still inside an atomic block (and was cleaned up)"""
+    from django.db import connections
+    conn = connections[alias]
+    if not conn.in_atomic_block:
+        return False
+    raw = conn.connection
+    conn.in_atomic_block = False
+    conn.savepoint_ids = []
+    conn.atomic_blocks = []
+    conn.needs_rollback = False
+    conn.closed_in_transaction = False
+    conn.run_on_commit = []
+    if raw is not None:
+        try:
+            raw.close()
+        except Exception:
+            pass
+    conn.connection = None
+    return True
+
+
 def reset_db(alias='default'):
     from django.db import connections
     conn = connections[alias]
